@@ -90,11 +90,40 @@ let wscenario c =
       let i = iface_of (next c) in let a = value c in let b = value c in WEdge (EVal (i, a, b))
   | _ -> WOld (zscenario c)
 let peobs = function None -> ":fault" | Some (ab, ba) -> pbool ab ^ " " ^ pbool ba
-let run_line ts = let c = { rest = ts } in let s = wscenario c in
+(* ---- value objects whose earlier life was a custom-type object:
+   :st <box> <cmpmask> <copmask> <nA> <store>*nA <nB> <store>*nB      store ::= <stored value> | :o <type 0..2> <const 0|1> <object 0..3>
+   bit i of cmpmask / copmask: a comparator / a copier is installed for custom type i; the last store of each object is a built-in value ---- *)
+let ostore c =
+  match peek c with
+  | Some ":o" -> ignore (next c); let ty = nat_tok (next c) in let cst = bool_tok (next c) in let ob = nat_tok (next c) in OObj (ty, cst, ob)
+  | _ -> OVal (sval c)
+let oval = function OVal s -> s | OObj _ -> raise (Bad "the last store of an object must be a built-in value")
+let vscenario c =
+  match peek c with
+  | Some ":st" -> ignore (next c);
+      let b = box_of (next c) in
+      let cm = int_tok (next c) in let pm = int_tok (next c) in
+      let rp = List.map (fun i -> ((cm lsr i) land 1 = 1, (pm lsr i) land 1 = 1)) [0; 1; 2] in
+      let (ba, la) = split_last (counted c ostore) in
+      let (bb, lb) = split_last (counted c ostore) in
+      VStale { st_box = b; st_repo = rp; st_before = ba; st_last = oval la; st_obefore = bb; st_other = oval lb }
+  | _ -> VOld (wscenario c)
+let reads_of gs =
+  let oc = { rest = gs } in
+  let rec reads () = if at_end oc then [] else
+    (if peek oc = Some ":fail" then (ignore (next oc); None :: reads ()) else (let r = rval oc in Some r :: reads ())) in
+  reads ()
+let run_line ts = let c = { rest = ts } in let s = vscenario c in
   if not (at_end c) then raise (Bad "trailing tokens") else
-  if not (w_valid s) then raise (Bad "invalid scenario: value out of range of its type / window outside the arena / a NULL buffer with a size / accessor not offered / default not of the accessor's type / the box has no setter for a stored value")
-  else (match w_run s with QOld (PObs o) -> pxobs o | QOld (PReuse o) -> probs o | QEdge o -> peobs o)
-let spec_line ts os = let c = { rest = ts } in let s = wscenario c in
+  if not (v_valid s) then raise (Bad "invalid scenario: value out of range of its type / window outside the arena / a NULL buffer with a size / accessor not offered / default not of the accessor's type / the box has no setter for a stored value / no such custom type or object")
+  else (match v_run s with UOld (QOld (PObs o)) -> pxobs o | UOld (QOld (PReuse o)) -> probs o | UOld (QEdge o) -> peobs o | UStale o -> probs o)
+let spec_line ts os = let c = { rest = ts } in let v = vscenario c in
+  match v with
+  | VStale _ -> (match os with
+      | ab :: ba :: gs -> v_spec v (UStale { q_ab = bool_tok ab; q_ba = bool_tok ba; q_get = reads_of gs })
+      | _ -> false)
+  | VOld s ->
+  let w_spec s o = v_spec (VOld s) (UOld o) in
   match s with
   | WEdge _ -> (match os with
       | [ab; ba] -> w_spec s (QEdge (Some (bool_tok ab, bool_tok ba)))
